@@ -19,6 +19,8 @@ ASSUMPTIONS = [
     "y is passed as a numpy array (the ODE loss classes always convert first)",
     "non-unit weights are exercised for the loss value of Square and Normal only, as the statement restricts",
 ]
+FUZZ = {"quick": {"runs": 1500, "campaigns": [("empty", 0), ("seeded", 1)]},
+        "thorough": {"runs": 40000, "campaigns": [("empty", 0), ("empty", 1)] + [("seeded", 2 + i) for i in range(6)]}}
 BUDGET = {"quick": (4, 400), "thorough": (16, 5000)}
 TECHNIQUE = "property-based testing (Hypothesis @given) against mpmath reference log-densities and their numerically exact derivatives"
 LEVEL_TEXT = ("Exploration: thousands of generated (class, shape, spread form, data) cases compared with closed-form references; "
